@@ -531,6 +531,12 @@ def r09i(ck, fb):
             if fs[-1:] == ['tmp'] and rv.get('k') == 'use' and 'c' in rv.get('op', {}) and rv['op']['c'].get('v') in (False, 'false', 0):
                 ws.append(i)
     ok = bool(ws) and cfg.must_pass_before_return(b, 0, set(ws))
+    sc0 = fb.bodies.get(CA + 'set_config')
+    if not ok and sc0 is not None and _applied_again_edges(fb, sc0):
+        # since repair b169cc7 a mark that survives an applied publish does no harm: set_config compares a publish under a tmp entry with the APPLIED
+        # content (R09p), so the next identical publish adds no history item and clears the mark. The clause is armed only without that comparison
+        ck.ok('R09i', 'update_value:clears-tmp', b.where(), 'not on every path - harmless while set_config compares a tmp entry with the applied content (R09p)')
+        return
     ck.require(ok, 'R09i', 'update_value:clears-tmp', b.where(),
                'update_value can return without clearing tmp: a key that received a routed temporary value keeps the mark after the publish was applied; '
                'republishing the same content is then treated as a change every time (duplicate history entries push real ones out of the 100-entry '
